@@ -3,7 +3,7 @@ from analysis.facts import norm
 from analysis.cfg import Cfg
 from analysis.flow import DefUse, backward, find_calls, callee_is, callee_ends, op_local, op_const, bool_branch, variant_arms, field_chain, switch_info
 from analysis.table import PathWalker, describe_val, switch_test
-from rules.common import need, inl
+from rules.common import need, inl, arg_by_name
 
 M = "monitor::Monitor"
 CO = "coroutine::korosensei::Coroutine"
@@ -140,7 +140,7 @@ def listener_rule(run, f, rid):
                     why = why or "Running: %d submit / %d remove on a path (expected one submit, no remove)" % (ns, nr)
                 else:
                     sx = [x for x in pth if x in sub][0]
-                    ts = describe_val(b, du, b.blocks[sx]["term"]["args"][0])
+                    ts = describe_val(b, du, arg_by_name(f, b.blocks[sx]["term"], "timestamp", 0))
                     if not (ts[0] == "call" and ts[1] == "common::get_timeout_time" and "from_millis" in repr(ts) and "'10'" in repr(ts)):
                         why = why or "Running: the deadline is not get_timeout_time(10 ms) (%r)" % (ts,)
                     pk = [x for x in pth if x in {y for (y, _t) in put}]
@@ -162,7 +162,7 @@ def listener_rule(run, f, rid):
                 elif nr == 1:
                     rx = [x for x in pth if x in rem][0]
                     ra = b.blocks[rx]["term"]["args"]
-                    node_arg = ra[0] if norm(b.blocks[rx]["term"].get("callee") or "") == M + "::remove" else ra[1]
+                    node_arg = arg_by_name(f, b.blocks[rx]["term"], "node", 0) if norm(b.blocks[rx]["term"].get("callee") or "") == M + "::remove" else ra[1]
                     if not any(y in gk for (y, _t) in backward(b, node_arg, du, at=(rx, "term")).calls):
                         why = why or "%s: the node disarmed is not the one stored for this coroutine" % v
         if why:
